@@ -58,6 +58,14 @@ func (s *session) mutSig(sig *types.Signature, how string, alt types.V2FileContr
 		*sig = s.e.contract.Revision.HostSignature
 	case "resign":
 		*sig = s.hostSign(alt)
+	case "transportKey":
+		// the answering host signs the revision the renter expects -- with the key of its
+		// transport identity, which (in this regime) is not the contract's host key
+		rev, ok := s.expectRev()
+		if !ok {
+			rev = alt
+		}
+		*sig = s.e.transportKey.SignHash(s.e.cs.ContractSigHash(rev))
 	default:
 		return false
 	}
@@ -186,7 +194,7 @@ func newReadSession(e *env, c Case) *session {
 	s.rawLen = func() int { return dataLen }
 	var buf bytes.Buffer
 	s.call = func(ctx context.Context) (any, error) {
-		return rhp4.RPCReadSector(ctx, e.net, e.prices, e.token(), &buf, root, p.offset, p.length)
+		return rhp4.RPCReadSector(ctx, e.tc, e.prices, e.token(), &buf, root, p.offset, p.length)
 	}
 	s.wireOK = func() bool {
 		var req proto4.RPCReadSectorRequest
@@ -323,7 +331,7 @@ func newReadUnalignedSession(e *env, c Case) *session {
 	s.rawLen = func() int { return 0 }
 	var buf bytes.Buffer
 	s.call = func(ctx context.Context) (any, error) {
-		return rhp4.RPCReadSector(ctx, e.net, e.prices, e.token(), &buf, root, p.offset, p.length)
+		return rhp4.RPCReadSector(ctx, e.tc, e.prices, e.token(), &buf, root, p.offset, p.length)
 	}
 	s.synth = func(msg string, in inMsg) proto4.Object {
 		if msg == "resp" && lying {
@@ -363,7 +371,7 @@ func newWriteSession(e *env, c Case) *session {
 	truth := proto4.SectorRoot(&sector)
 	s.steps = []stepDef{{"resp", func() proto4.Object { return new(proto4.RPCWriteSectorResponse) }}}
 	s.call = func(ctx context.Context) (any, error) {
-		return rhp4.RPCWriteSector(ctx, e.net, e.prices, e.token(), bytes.NewReader(data), length)
+		return rhp4.RPCWriteSector(ctx, e.tc, e.prices, e.token(), bytes.NewReader(data), length)
 	}
 	s.wireOK = func() bool {
 		var req proto4.RPCWriteSectorRequest
@@ -410,7 +418,7 @@ func newVerifySession(e *env, c Case) *session {
 	root := e.roots[sector]
 	s.steps = []stepDef{{"resp", func() proto4.Object { return new(proto4.RPCVerifySectorResponse) }}}
 	s.call = func(ctx context.Context) (any, error) {
-		return rhp4.RPCVerifySector(ctx, e.net, e.prices, e.token(), root)
+		return rhp4.RPCVerifySector(ctx, e.tc, e.prices, e.token(), root)
 	}
 	s.wireOK = func() bool {
 		var req proto4.RPCVerifySectorRequest
@@ -554,7 +562,7 @@ func newRootsSession(e *env, c Case) *session {
 	}
 	s.steps = []stepDef{{"resp", func() proto4.Object { return new(proto4.RPCSectorRootsResponse) }}}
 	s.call = func(ctx context.Context) (any, error) {
-		return rhp4.RPCSectorRoots(ctx, e.net, e.cs, e.prices, e.signer, old, uint64(p.offset), uint64(p.length))
+		return rhp4.RPCSectorRoots(ctx, e.tc, e.cs, e.prices, e.signer, old, uint64(p.offset), uint64(p.length))
 	}
 	s.wireOK = func() bool {
 		var req proto4.RPCSectorRootsRequest
@@ -579,6 +587,10 @@ func newRootsSession(e *env, c Case) *session {
 				return errUnknownFault
 			}
 		case "HostSignature":
+			s.expectRev = func() (types.V2FileContract, bool) {
+				rev, _, err := proto4.ReviseForSectorRoots(old.Revision, e.prices, uint64(p.length))
+				return rev, err == nil
+			}
 			alt, _, err := proto4.ReviseForSectorRoots(old.Revision, e.prices, uint64(p.length)*1000)
 			if err != nil {
 				return err
@@ -664,7 +676,7 @@ func newAppendSession(e *env, c Case) *session {
 		{"sig", func() proto4.Object { return new(proto4.RPCAppendSectorsThirdResponse) }},
 	}
 	s.call = func(ctx context.Context) (any, error) {
-		return rhp4.RPCAppendSectors(ctx, e.net, e.signer, e.cs, e.prices, old, req)
+		return rhp4.RPCAppendSectors(ctx, e.tc, e.signer, e.cs, e.prices, old, req)
 	}
 	s.wireOK = func() bool {
 		var w proto4.RPCAppendSectorsRequest
@@ -693,6 +705,7 @@ func newAppendSession(e *env, c Case) *session {
 			if f.Field != "HostSignature" {
 				return errUnknownFault
 			}
+			s.expectRev = func() (types.V2FileContract, bool) { return derived(e.prices) }
 			alt, ok := derived(e.prices)
 			alt = overcharge(alt)
 			if !ok {
@@ -863,7 +876,7 @@ func newFreeSession(e *env, c Case) *session {
 		{"sig", func() proto4.Object { return new(proto4.RPCFreeSectorsThirdResponse) }},
 	}
 	s.call = func(ctx context.Context) (any, error) {
-		return rhp4.RPCFreeSectors(ctx, e.net, e.signer, e.cs, e.prices, old, p.indices)
+		return rhp4.RPCFreeSectors(ctx, e.tc, e.signer, e.cs, e.prices, old, p.indices)
 	}
 	// normal form of the request: the distinct indices, highest first
 	s.wireOK = func() bool {
@@ -925,6 +938,7 @@ func newFreeSession(e *env, c Case) *session {
 			if f.Field != "HostSignature" {
 				return errUnknownFault
 			}
+			s.expectRev = func() (types.V2FileContract, bool) { return derived(e.prices) }
 			alt, ok := derived(e.prices)
 			alt = overcharge(alt)
 			if !ok {
@@ -1041,7 +1055,7 @@ func newFreeOutOfRangeSession(e *env, c Case) *session {
 		{"sig", func() proto4.Object { return new(proto4.RPCFreeSectorsThirdResponse) }},
 	}
 	s.call = func(ctx context.Context) (any, error) {
-		return rhp4.RPCFreeSectors(ctx, e.net, e.signer, e.cs, e.prices, old, indices)
+		return rhp4.RPCFreeSectors(ctx, e.tc, e.signer, e.cs, e.prices, old, indices)
 	}
 	s.synth = func(msg string, in inMsg) proto4.Object {
 		if !lying {
@@ -1084,7 +1098,7 @@ func newRootsOutOfRangeSession(e *env, c Case) *session {
 	lying := s.hasFault("resp", "All", "otherRange")
 	s.steps = []stepDef{{"resp", func() proto4.Object { return new(proto4.RPCSectorRootsResponse) }}}
 	s.call = func(ctx context.Context) (any, error) {
-		return rhp4.RPCSectorRoots(ctx, e.net, e.cs, e.prices, e.signer, old, offset, length)
+		return rhp4.RPCSectorRoots(ctx, e.tc, e.cs, e.prices, e.signer, old, offset, length)
 	}
 	s.synth = func(msg string, in inMsg) proto4.Object {
 		if !lying {
@@ -1133,7 +1147,7 @@ func newReadInvalidSession(e *env, c Case) *session {
 	s.rawLen = func() int { return 0 }
 	var buf bytes.Buffer
 	s.call = func(ctx context.Context) (any, error) {
-		return rhp4.RPCReadSector(ctx, e.net, e.prices, e.token(), &buf, e.roots[p.sector], p.offset, p.length)
+		return rhp4.RPCReadSector(ctx, e.tc, e.prices, e.token(), &buf, e.roots[p.sector], p.offset, p.length)
 	}
 	s.synth = func(msg string, in inMsg) proto4.Object {
 		if msg == "resp" && lying {
@@ -1173,7 +1187,7 @@ func newAppendEmptySession(e *env, c Case) *session {
 		{"sig", func() proto4.Object { return new(proto4.RPCAppendSectorsThirdResponse) }},
 	}
 	s.call = func(ctx context.Context) (any, error) {
-		return rhp4.RPCAppendSectors(ctx, e.net, e.signer, e.cs, e.prices, old, nil)
+		return rhp4.RPCAppendSectors(ctx, e.tc, e.signer, e.cs, e.prices, old, nil)
 	}
 	s.synth = func(msg string, in inMsg) proto4.Object {
 		if !lying || in.obj != nil {
@@ -1219,7 +1233,7 @@ func newFundSession(e *env, c Case) *session {
 	}
 	s.steps = []stepDef{{"resp", func() proto4.Object { return new(proto4.RPCFundAccountsResponse) }}}
 	s.call = func(ctx context.Context) (any, error) {
-		return rhp4.RPCFundAccounts(ctx, e.net, e.cs, e.signer, old, deposits)
+		return rhp4.RPCFundAccounts(ctx, e.tc, e.cs, e.signer, old, deposits)
 	}
 	s.wireOK = func() bool {
 		var w proto4.RPCFundAccountsRequest
@@ -1248,6 +1262,10 @@ func newFundSession(e *env, c Case) *session {
 			}
 			r.Balances = b
 		case "HostSignature":
+			s.expectRev = func() (types.V2FileContract, bool) {
+				rev, _, err := proto4.ReviseForFundAccounts(old.Revision, total)
+				return rev, err == nil
+			}
 			alt, _, err := proto4.ReviseForFundAccounts(old.Revision, total.Add(types.NewCurrency64(1)))
 			if err != nil {
 				return err
@@ -1292,10 +1310,10 @@ func newReplenishSession(e *env, c Case, pools bool) *session {
 	var accounts []proto4.Account
 	replenish := func(ctx context.Context, accs []proto4.Account, tgt types.Currency) (types.V2FileContract, []proto4.AccountDeposit, error) {
 		if pools {
-			r, err := rhp4.RPCReplenishPools(ctx, e.net, rhp4.RPCReplenishPoolsParams{Pools: accs, Target: tgt, Contract: e.contract}, e.cs, e.signer)
+			r, err := rhp4.RPCReplenishPools(ctx, e.tc, rhp4.RPCReplenishPoolsParams{Pools: accs, Target: tgt, Contract: e.contract}, e.cs, e.signer)
 			return r.Revision, r.Deposits, err
 		}
-		r, err := rhp4.RPCReplenishAccounts(ctx, e.net, rhp4.RPCReplenishAccountsParams{Accounts: accs, Target: tgt, Contract: e.contract}, e.cs, e.signer)
+		r, err := rhp4.RPCReplenishAccounts(ctx, e.tc, rhp4.RPCReplenishAccountsParams{Accounts: accs, Target: tgt, Contract: e.contract}, e.cs, e.signer)
 		return r.Revision, r.Deposits, err
 	}
 	switch c.Variant % 3 {
@@ -1370,6 +1388,7 @@ func newReplenishSession(e *env, c Case, pools bool) *session {
 			if f.Field != "HostSignature" {
 				return errUnknownFault
 			}
+			s.expectRev = func() (types.V2FileContract, bool) { return derived(0) }
 			alt, ok := derived(1)
 			if !ok {
 				alt = old.Revision
@@ -1443,7 +1462,7 @@ func newLatestRevisionSession(e *env, c Case) *session {
 	truth := e.contract.Revision
 	s.steps = []stepDef{{"resp", func() proto4.Object { return new(proto4.RPCLatestRevisionResponse) }}}
 	s.call = func(ctx context.Context) (any, error) {
-		return rhp4.RPCLatestRevision(ctx, e.net, e.contract.ID)
+		return rhp4.RPCLatestRevision(ctx, e.tc, e.contract.ID)
 	}
 	s.mutate = func(msg string, obj proto4.Object, _ *[]byte, f Fault) error {
 		r := obj.(*proto4.RPCLatestRevisionResponse)
@@ -1483,7 +1502,7 @@ func newAccountBalanceSession(e *env, c Case) *session {
 	truth, _ := e.ec.AccountBalance(e.account)
 	s.steps = []stepDef{{"resp", func() proto4.Object { return new(proto4.RPCAccountBalanceResponse) }}}
 	s.call = func(ctx context.Context) (any, error) {
-		return rhp4.RPCAccountBalance(ctx, e.net, e.account)
+		return rhp4.RPCAccountBalance(ctx, e.tc, e.account)
 	}
 	s.mutate = func(msg string, obj proto4.Object, _ *[]byte, f Fault) error {
 		r := obj.(*proto4.RPCAccountBalanceResponse)
